@@ -36,7 +36,7 @@ LCase(ms) == LET anyErr == \E i \in 1..Len(ms) : XmlErr(ms[i]) IN
 Emit == PrintT(ToJson([f |-> "filert", cs |-> SetToSeq({LCase(ms) : ms \in Lists})]))
 Spec == GenSpec
 cKeys == {<<"a">>, <<"b", "r">>, <<"-", "x">>}       \* (br: a name an HTML-minded reader would close on sight; here it is an element like any other)
-cScalars == {VS(<<"{", "}">>), VS(<<"\"", "\\">>), VS(<<" ", "y">>), VF(<<"1", ".", "5">>), VB(<<"t", "r", "u", "e">>)}
-cScalarsQ == {VS(<<"{", "\"", "\\", "}", "~", "\\", "u", "0", "0", "3", "c">>), VF(<<"1", ".", "5">>)}      \* (~ stands for a two-byte character; the tail is the six characters \u003c, not "<")
+cScalars == {VS(<<"{", "}">>), VS(<<"\"", "\\">>), VS(<<" ", "y", "%", "s">>), VF(<<"1", ".", "5">>), VB(<<"t", "r", "u", "e">>)}
+cScalarsQ == {VS(<<"{", "\"", "\\", "}", "~", "\\", "u", "0", "0", "3", "c", "%", "d">>), VF(<<"1", ".", "5">>)}      \* (~ stands for a two-byte character; then the six characters \u003c, not "<"; %d, %s: data is never a format)
 cConts == {EmptyMap, EmptyList}
 =============================================================================
